@@ -107,6 +107,32 @@
 (* counters).                                                              *)
 (* Reloads are taken between admissions (no caller inside the admission    *)
 (* path): a bound of the model.                                            *)
+(*                                                                         *)
+(* Other slots that fail (Points).  The hot-parameter slots share the slot *)
+(* chain with other slots - the library's and the user's - and the chain   *)
+(* is FAIL-OPEN: a panic in any slot never reaches the caller, the request *)
+(* is admitted.  A request carries the point pp at which a user slot       *)
+(* panics while it is served:                                              *)
+(*   none  nobody panics                                                   *)
+(*   chk   a rule-check slot in front of the hot-parameter check: the      *)
+(*         request is admitted without having been checked or counted      *)
+(*   sb    a statistic slot in FRONT of the hot-parameter statistic slot,  *)
+(*         when told "passed": admitted (if the check passed), NOT counted *)
+(*   sa    a statistic slot BEHIND it, when told "passed": admitted and    *)
+(*         already counted                                                 *)
+(*   cb / ca  a statistic slot in front of / behind it, when told          *)
+(*         "completed" (at the exit of a normally admitted, counted entry) *)
+(* C06 at this level: an entry that was counted for v (live[id].c)         *)
+(* occupies exactly one unit from then until it is exited and releases     *)
+(* exactly that unit then - whatever other slots did; an entry that was    *)
+(* admitted without being counted releases nothing.  So the figure is the  *)
+(* number of live entries that were COUNTED: LiveFor ranges over those,    *)
+(* and every invariant above reads as before.                              *)
+(* Broken variants: SkipAll = TRUE ("every recovered panic on the way in   *)
+(* skips the completion": also an sa entry, which WAS counted, never       *)
+(* releases) and CompAbort = TRUE ("a panic of an earlier slot at the exit *)
+(* ends the completion": a cb entry never releases); both violate          *)
+(* CounterOK / ZeroAfterDrain and pass when Points = {"none"}.             *)
 (***************************************************************************)
 EXTENDS HotParamArgs, FiniteSets, TLC
 
@@ -127,10 +153,14 @@ CONSTANTS
     CountOld,   \* design choice after a reload with fresh counters: FALSE = the new rule counts from zero, TRUE = figures carried over
     ExitCurrent,\* FALSE: the design.  TRUE: broken variant (an exit releases on the counter that is current, whoever was counted there,
                 \* for the value the rule in force reads from the arguments at that moment)
-    Remap       \* [Values -> Values \cup {None}]: what a rule with a changed selector reads from the arguments of an entry admitted for v
+    Remap,      \* [Values -> Values \cup {None}]: what a rule with a changed selector reads from the arguments of an entry admitted for v
+    Points,     \* the points at which a user slot may panic while a request is served: subset of {"none","chk","sb","sa","cb","ca"}
+    SkipAll,    \* FALSE: the design.  TRUE: broken variant (an entry let through after ANY recovered panic is never completed)
+    CompAbort   \* FALSE: the design.  TRUE: broken variant (a panic of an earlier statistic slot at the exit ends the completion)
 
 VARIABLES
-    live,       \* id -> [res, v, ver, now] of every live (admitted, not exited) entry (now: the value the rule in force reads today)
+    live,       \* id -> [res, v, ver, now, c, pp] of every live (admitted, not exited) entry (now: the value the rule in force reads
+                \* today; c: it was counted for v; pp: where a user slot panics / panicked for it)
     inflight,   \* [Res -> [Values -> SUBSET ids]]
     cnt,        \* implementation: [Res -> [Values -> Int]]
     lastv,      \* value carried by the most recent request (any resource)
@@ -184,23 +214,25 @@ Touch(r, v) == IF (DropZero \/ Fresh) /\ v # None THEN [has EXCEPT ![r] = @ \cup
 Made(r, v)  == IF Fresh /\ v # None /\ v \notin has[r] THEN [made EXCEPT ![r][v] = @ + 1] ELSE made
 
 \* a request on a ruled resource; v = None: the selected argument is missing
-Request(r, v) ==
+\* pp: the point at which a user slot panics while this request is served (see the header)
+Request(r, v, pp) ==
     /\ nid < MaxOps
     /\ Room
     /\ UNCHANGED <<pend, look>>
-    /\ has' = Touch(r, v)
-    /\ made' = Made(r, v)
+    /\ has' = IF pp = "chk" THEN has ELSE Touch(r, v)
+    /\ made' = IF pp = "chk" THEN made ELSE Made(r, v)
     /\ nid' = nid + 1
-    /\ dec' = [prop |-> Admit(inflight, r, v), impl |-> ImplAdmit(cnt, r, v)]
+    /\ LET adm == pp = "chk" \/ Admit(inflight, r, v)              \* fail-open: the check never ran
+           c   == v # None /\ pp \notin {"chk", "sb"}               \* the hot-parameter statistic slot was told "passed"
+       IN  /\ dec' = [prop |-> adm, impl |-> pp = "chk" \/ ImplAdmit(cnt, r, v)]
+           /\ IF adm /\ InUse < MaxLive
+                THEN /\ live' = live @@ ((nid + 1) :> [res |-> r, v |-> v, ver |-> ver[r], now |-> v, c |-> c, pp |-> pp])
+                     /\ inflight' = IF c THEN [inflight EXCEPT ![r][v] = @ \cup {nid + 1}] ELSE inflight
+                     /\ cnt' = IF c THEN [cnt EXCEPT ![r][v] = @ + 1] ELSE cnt
+                ELSE /\ ~adm                      \* (the MaxLive bound only prunes the model)
+                     /\ UNCHANGED <<live, inflight, cnt>>
     /\ lastv' = IF v # None THEN v ELSE lastv
-    /\ IF Admit(inflight, r, v) /\ InUse < MaxLive
-         THEN /\ live' = live @@ ((nid + 1) :> [res |-> r, v |-> v, ver |-> ver[r], now |-> v])
-              /\ inflight' = IF v = None THEN inflight ELSE [inflight EXCEPT ![r][v] = @ \cup {nid + 1}]
-              /\ cnt' = IF v = None THEN cnt ELSE [cnt EXCEPT ![r][v] = @ + 1]
-              /\ h' = Append(h, [op |-> "req", id |-> nid + 1, res |-> r, v |-> v])
-         ELSE /\ ~Admit(inflight, r, v)        \* (the MaxLive bound only prunes the model)
-              /\ UNCHANGED <<live, inflight, cnt>>
-              /\ h' = Append(h, [op |-> "req", id |-> nid + 1, res |-> r, v |-> v])
+    /\ h' = Append(h, [op |-> "req", id |-> nid + 1, res |-> r, v |-> v, pp |-> pp])
     /\ UNCHANGED <<alt, ver, base, nrel>>
 
 \* an entry on a resource without a rule: always admitted, occupies nothing, but its arguments
@@ -209,25 +241,27 @@ Other(o, v) ==
     /\ nid < MaxOps
     /\ InUse < MaxLive
     /\ nid' = nid + 1
-    /\ live' = live @@ ((nid + 1) :> [res |-> o, v |-> v, ver |-> 0, now |-> v])
+    /\ live' = live @@ ((nid + 1) :> [res |-> o, v |-> v, ver |-> 0, now |-> v, c |-> FALSE, pp |-> "none"])
     /\ lastv' = IF v # None THEN v ELSE lastv
     /\ dec' = [prop |-> TRUE, impl |-> TRUE]
-    /\ h' = Append(h, [op |-> "req", id |-> nid + 1, res |-> o, v |-> v])
+    /\ h' = Append(h, [op |-> "req", id |-> nid + 1, res |-> o, v |-> v, pp |-> "none"])
     /\ UNCHANGED <<inflight, cnt, pend, has, look, made, alt, ver, base, nrel>>
 
 \* K >= 1, first half of the admission path (rule-check slot): the caller reads the cell, decides, and is parked
 \* with its decision before the statistic slot ("chain.checked")
-Check(r, v) ==
+\* (a caller whose rule-check slot panics never gets here: pp # "chk")
+Check(r, v, pp) ==
     /\ K >= 1 /\ Room
+    /\ pp # "chk"
     /\ nid < MaxOps
     /\ InUse < MaxLive                        \* (prunes the model only)
     /\ nid' = nid + 1
     /\ dec' = [prop |-> Admit(inflight, r, v), impl |-> ImplAdmit(cnt, r, v)]
-    /\ pend' = pend @@ ((nid + 1) :> [res |-> r, v |-> v, prop |-> Admit(inflight, r, v), impl |-> ImplAdmit(cnt, r, v)])
+    /\ pend' = pend @@ ((nid + 1) :> [res |-> r, v |-> v, prop |-> Admit(inflight, r, v), impl |-> ImplAdmit(cnt, r, v), pp |-> pp])
     /\ has' = Touch(r, v)
     /\ made' = Made(r, v)
     /\ lastv' = IF v # None THEN v ELSE lastv
-    /\ h' = Append(h, [op |-> "chk", id |-> nid + 1, res |-> r, v |-> v])
+    /\ h' = Append(h, [op |-> "chk", id |-> nid + 1, res |-> r, v |-> v, pp |-> pp])
     /\ UNCHANGED <<live, inflight, cnt, look, alt, ver, base, nrel>>
 
 \* Fresh, K >= 1: the admission path at its finest grain.  First step: the caller looks the value up (shared lock) and
@@ -256,7 +290,7 @@ Create(id) ==
            /\ made' = IF install THEN [made EXCEPT ![p.res][p.v] = @ + 1] ELSE made
            /\ cnt' = cnt2
            /\ dec' = [prop |-> Admit(inflight, p.res, p.v), impl |-> ImplAdmit(cnt2, p.res, p.v)]
-           /\ pend' = pend @@ (id :> [res |-> p.res, v |-> p.v, prop |-> Admit(inflight, p.res, p.v), impl |-> ImplAdmit(cnt2, p.res, p.v)])
+           /\ pend' = pend @@ (id :> [res |-> p.res, v |-> p.v, prop |-> Admit(inflight, p.res, p.v), impl |-> ImplAdmit(cnt2, p.res, p.v), pp |-> "none"])
     /\ h' = Append(h, [op |-> "crt", id |-> id])
     /\ UNCHANGED <<live, inflight, lastv, nid, alt, ver, base, nrel>>
 
@@ -267,9 +301,10 @@ Record(id) ==
     /\ LET p == pend[id] IN
         /\ pend' = [i \in DOMAIN pend \ {id} |-> pend[i]]
         /\ IF p.prop
-             THEN /\ live' = live @@ (id :> [res |-> p.res, v |-> p.v, ver |-> ver[p.res], now |-> p.v])
-                  /\ inflight' = IF p.v = None THEN inflight ELSE [inflight EXCEPT ![p.res][p.v] = @ \cup {id}]
-                  /\ cnt' = IF p.v = None \/ p.v \notin has[p.res] THEN cnt ELSE [cnt EXCEPT ![p.res][p.v] = @ + 1]
+             THEN /\ live' = live @@ (id :> [res |-> p.res, v |-> p.v, ver |-> ver[p.res], now |-> p.v,
+                                             c |-> (p.v # None /\ p.pp # "sb"), pp |-> p.pp])
+                  /\ inflight' = IF p.v = None \/ p.pp = "sb" THEN inflight ELSE [inflight EXCEPT ![p.res][p.v] = @ \cup {id}]
+                  /\ cnt' = IF p.v = None \/ p.pp = "sb" \/ p.v \notin has[p.res] THEN cnt ELSE [cnt EXCEPT ![p.res][p.v] = @ + 1]
              ELSE UNCHANGED <<live, inflight, cnt>>
     /\ h' = Append(h, [op |-> "rec", id |-> id])
     /\ UNCHANGED <<lastv, nid, dec, has, look, made, alt, ver, base, nrel>>
@@ -282,12 +317,15 @@ Exit(id) ==
            \* is the entry counted on the counters in use?  (an entry admitted before a reload with fresh counters occupies a unit of
            \* the OLD counters unless the design carries the figures over; its exit releases THAT unit.)  ExitCurrent: never asked
            mine == e.res \notin Res \/ CountOld \/ ExitCurrent \/ e.ver >= base[e.res]
+           \* the hot-parameter statistic slot is told "completed" for every entry it was told "passed" for - whatever other slots do
+           \* (the broken variants: never for an entry let through after a panic / not when an earlier slot panics at the exit)
+           told == e.res \notin Res \/ (e.c /\ ~(SkipAll /\ e.pp = "sa") /\ ~(CompAbort /\ e.pp = "cb"))
        IN  /\ live' = [i \in DOMAIN live \ {id} |-> live[i]]
            /\ inflight' = IF e.res \in Res /\ e.v # None
                             THEN [inflight EXCEPT ![e.res][e.v] = @ \ {id}] ELSE inflight
-           /\ cnt' = IF e.res \in Res /\ mine /\ iv # None /\ iv \in has[e.res]
+           /\ cnt' = IF e.res \in Res /\ mine /\ told /\ iv # None /\ iv \in has[e.res]
                             THEN [cnt EXCEPT ![e.res][iv] = IF DropZero /\ @ - 1 <= 0 THEN 0 ELSE @ - 1] ELSE cnt
-           /\ has' = IF DropZero /\ e.res \in Res /\ mine /\ iv # None /\ iv \in has[e.res] /\ cnt[e.res][iv] - 1 <= 0
+           /\ has' = IF DropZero /\ e.res \in Res /\ mine /\ told /\ iv # None /\ iv \in has[e.res] /\ cnt[e.res][iv] - 1 <= 0
                             THEN [has EXCEPT ![e.res] = @ \ {iv}] ELSE has
     /\ h' = Append(h, [op |-> "exit", id |-> id])
     /\ UNCHANGED <<lastv, nid, dec, pend, look, made, alt, ver, base, nrel>>
@@ -314,9 +352,9 @@ Reload(r, a, fresh, sel) ==
     /\ UNCHANGED <<lastv, nid, dec, pend, look>>
 
 Next ==
-    \/ \E r \in Res, v \in Values \cup {None} : Request(r, v)
+    \/ \E r \in Res, v \in Values \cup {None}, pp \in Points : Request(r, v, pp)
     \/ \E o \in Oth, v \in Values : Other(o, v)
-    \/ \E r \in Res, v \in Values \cup {None} : Check(r, v)
+    \/ \E r \in Res, v \in Values \cup {None}, pp \in Points : Check(r, v, pp)
     \/ \E r \in Res, v \in Values : Lookup(r, v)
     \/ \E id \in DOMAIN look : Create(id)
     \/ \E id \in DOMAIN pend : Record(id)
@@ -328,7 +366,9 @@ Spec == Init /\ [][Next]_vars
 \* ---------------------------------------------------------------------------
 \* Properties
 
-LiveFor(r, v) == { id \in DOMAIN live : live[id].res = r /\ live[id].v = v }
+\* the live entries that were counted for v (an entry let through without the hot-parameter statistic slot having been told is
+\* live, but occupies no unit)
+LiveFor(r, v) == { id \in DOMAIN live : live[id].res = r /\ live[id].v = v /\ live[id].c }
 
 \* ... those admitted since the counters in use started (= all of them as long as no reload brought fresh counters)
 LiveSince(r, v) == { id \in LiveFor(r, v) : live[id].ver >= base[r] }
